@@ -1,7 +1,6 @@
 package vsched
 
 import (
-	"fmt"
 	"unsafe"
 )
 
@@ -128,12 +127,14 @@ func ptrOf(obj any) uintptr {
 
 // Access records a read or write of a memory location for race detection and,
 // when TrackHB is on, is a scheduling point.
-func Access(addr unsafe.Pointer, write bool, loc string) {
+func Access(addr unsafe.Pointer, write bool, loc string, site string) {
 	e := cur()
 	if e == nil || !e.opt.TrackHB {
 		return
 	}
-	e.yield(&pendingOp{kind: opGeneric, name: "access", obj: loc})
+	if e.opt.AccessYield {
+		e.yield(&pendingOp{kind: opGeneric, name: "access", obj: loc})
+	}
 	t := e.cur
 	k := uintptr(addr)
 	r := e.accesses[k]
@@ -141,7 +142,7 @@ func Access(addr unsafe.Pointer, write bool, loc string) {
 		r = &accessRec{loc: loc, reads: map[int]VC{}, readBy: map[int]string{}}
 		e.accesses[k] = r
 	}
-	me := fmt.Sprintf("%s@%s", t.name, t.where)
+	me := site
 	if r.hasW && !leq(r.lastW, t.vc) {
 		e.race(Race{Loc: loc, A: r.lastWBy, AWrite: true, B: me, BWrite: write})
 	}
